@@ -75,6 +75,7 @@ def gen_root():
         out.append('#[path = "%s"] pub(crate) mod %s;' % (f, name))
     # second, directly callable inclusion of the fmt literal parser (private in `fmt`)
     out.append('#[path = "%s"] pub(crate) mod fmt_parsing_direct;' % os.path.join(common.REPO, "impl", "src", "fmt", "parsing.rs"))
+    out.append('#[path = "%s"] mod scanner_snapshot;' % os.path.join(os.path.dirname(HARNESS_SRC), "scanner_snapshot.rs"))
     out.append('#[path = "%s"] mod harness;' % HARNESS_SRC)
     out.append("pub(crate) const REPO_IMPL_SRC: &str = \"%s\";" % os.path.join(common.REPO, "impl", "src"))
     out.append("pub(crate) fn dispatch(name: &str, ast: &syn::DeriveInput) -> Option<harness::Outcome> {")
